@@ -23,6 +23,7 @@ EXPLANATION = (
     "conventions; (D4) slot agreement of (qubit, op) pairs and real/imag parts across writer, reader and "
     "PauliTerm.from_iterable; tuples restored for bitstrings, layers and connectivity. "
     "(D2p) a loader that branches on the source's type treats every kind of path its ensure_open-based siblings accept (str / os.PathLike) as a path; (D5o) no one-sided comparison decides whether an imaginary part is negligible."
+    ' Round 4: presence of a scalar record member is not decided by its truthiness; a loop over fixed member names examines every name; (D6) savers, loaders and record converters keep no module-level state and store nothing on their arguments.'
 )
 RULE_TEXT = "instances = record keys per saver/loader pair, loaders, printer tokens, slots; distinct by (rule, construct)"
 ASSUMPTIONS = [
